@@ -85,6 +85,7 @@ func c38OmissionDiscipline(c *Ctx, rule string) {
 		}
 		return false
 	}
+	uncond := map[string]bool{}
 	for _, st := range stores {
 		key := "ICEServer.MarshalJSON|key:" + st.key
 		pos := c.P.Pos(g.PosOf(st.node))
@@ -122,6 +123,57 @@ func c38OmissionDiscipline(c *Ctx, rule string) {
 		}
 		r.Cells += guards
 		r.Check(bad == "", rule, key+"|omitted-only-for-decode-default", pos, sprintf("%d guard(s), each a zero test of the stored field", guards), bad)
-
+		if guards == 0 {
+			uncond[st.key] = true
+		}
+	}
+	// (b) presence guards of the reader: a key the writer stores unconditionally is always present, possibly as null or a
+	// zero value; the reader must hand whatever is present to the key's decoder - its guard is the bare presence test.
+	// A narrowed guard (`ok && val != nil`) routes a present null to the absent-key default, which need not be the value
+	// null encodes (nil URL list -> empty list).
+	rd := c.mustFunc(rule, "", "ICEServer.iceserverUnmarshalFields")
+	if rd == nil {
+		return
+	}
+	rinfo := rd.Pkg.TypesInfo
+	var fieldsParam *types.Var
+	if sig, ok := rd.Obj.Type().(*types.Signature); ok {
+		for i := 0; i < sig.Params().Len(); i++ {
+			if _, isMap := sig.Params().At(i).Type().Underlying().(*types.Map); isMap {
+				fieldsParam = sig.Params().At(i)
+			}
+		}
+	}
+	nGuards := 0
+	ast.Inspect(rd.Decl.Body, func(x ast.Node) bool {
+		ifs, ok := x.(*ast.IfStmt)
+		if !ok || ifs.Init == nil {
+			return true
+		}
+		as, ok := ifs.Init.(*ast.AssignStmt)
+		if !ok || len(as.Lhs) != 2 || len(as.Rhs) != 1 {
+			return true
+		}
+		ix, ok := ast.Unparen(as.Rhs[0]).(*ast.IndexExpr)
+		if !ok || core.VarOf(rinfo, ix.X) != fieldsParam || fieldsParam == nil {
+			return true
+		}
+		tv := rinfo.Types[ix.Index]
+		if tv.Value == nil || tv.Value.Kind() != constant.String {
+			return true
+		}
+		k := constant.StringVal(tv.Value)
+		if !uncond[k] {
+			return true
+		}
+		nGuards++
+		okVar := core.VarOf(rinfo, as.Lhs[1])
+		bare := okVar != nil && core.VarOf(rinfo, ifs.Cond) == okVar
+		r.Check(bare, rule, "ICEServer.iceserverUnmarshalFields|key:"+k+"|presence-guard-is-bare", c.P.Pos(ifs.Pos()), "a present value (null included) always reaches the key's decoder",
+			"key \""+k+"\" is always written by MarshalJSON, but the reader treats some present values as absent (guard `"+exprStr(ifs.Cond)+"`): they get the absent-key default instead of what they encode (a nil URL list, written as null, comes back as an empty non-nil list)")
+		return true
+	})
+	if len(uncond) > 0 && nGuards == 0 {
+		r.Undecided(rule, "ICEServer.iceserverUnmarshalFields|presence-guards", c.P.Pos(rd.Decl.Pos()), "no `if val, ok := fields[key]; ...` lookups found for the unconditionally written keys")
 	}
 }
